@@ -59,17 +59,20 @@ def c2init_part(ctx, keys, other):
     from vt import tlaval
     from vt.ref import tlv
 
-    cfg = "CONSTANTS\n LATECHECK = %s\n PARTIAL = %s\nSPECIFICATION Spec\nINVARIANT MatchesTable\nINVARIANT ReadyHasKeys\nPROPERTY Terminates\nCHECK_DEADLOCK FALSE\n"
+    cfg = "CONSTANTS\n LATECHECK = %s\n PARTIAL = %s\n CALLGUARD = %s\nSPECIFICATION Spec\nINVARIANT MatchesTable\nINVARIANT ReadyHasKeys\nPROPERTY Terminates\nCHECK_DEADLOCK FALSE\n"
     dot = ctx.outdir / "c2init.dot"
-    r = ctx.tlc("C2Init", cfg % ("FALSE", "FALSE"), name="c2init-model", workers=4, extra=["-dump", "dot,actionlabels", str(dot)])
+    r = ctx.tlc("C2Init", cfg % ("FALSE", "FALSE", "FALSE"), name="c2init-model", workers=4, extra=["-dump", "dot,actionlabels", str(dot)])
     core.require_clean(r, "C2Init")
     core.require_coverage(r, ["CheckBoth", "CheckRequired", "Derive", "CheckAes", "CheckHmac", "CheckPair", "CheckTrial", "CheckIn"])
-    r0 = ctx.tlc("C2Init", cfg % ("TRUE", "FALSE"), name="c2init-latecheck", workers=2, coverage=False)
+    r0 = ctx.tlc("C2Init", cfg % ("TRUE", "FALSE", "FALSE"), name="c2init-latecheck", workers=2, coverage=False)
     if r0.ok:
         raise core.MachineryError("C2Init.tla accepts length checks before key derivation (vacuous?)")
-    r1 = ctx.tlc("C2Init", cfg % ("FALSE", "TRUE"), name="c2init-partial", workers=2, coverage=False)
+    r1 = ctx.tlc("C2Init", cfg % ("FALSE", "TRUE", "FALSE"), name="c2init-partial", workers=2, coverage=False)
     if r1.ok:
         raise core.MachineryError("C2Init.tla accepts a check-in that leaves half of the session keys underived (vacuous?)")
+    r2 = ctx.tlc("C2Init", cfg % ("FALSE", "FALSE", "TRUE"), name="c2init-callguard", workers=2, coverage=False)
+    if r2.ok:
+        raise core.MachineryError("C2Init.tla accepts a check-in whose derivation depends on the keys handed to that one call (vacuous?)")
     g = tlaval.Graph(dot)
     dot.unlink()
     rng = random.Random(ctx.seed + 66)
@@ -109,8 +112,8 @@ def c2init_part(ctx, keys, other):
                 md.size = len(md.dumps()) - 8
                 req = h.transform_get.transform(c2.C2Data(metadata=c2.encrypt_metadata(md, key.publickey())), request=c2.HttpRequest(method=b"GET", uri=b"/get", params={}, headers={}, body=b""))
                 mdg = hashlib.sha256(bytes(md.aes_rand)).digest()
-                # (every other class: the caller hands its own, complete keys to this one call - what the decoder keeps for the session is the same)
-                call_kw = {"keys": c2.BeaconKeys(aes_key=mdg[:16], hmac_key=mdg[16:])} if n % 2 else {}
+                # (callkeys: the caller hands its own, complete keys to this one call - what the decoder keeps for the session is the same)
+                call_kw = {"keys": c2.BeaconKeys(aes_key=mdg[:16], hmac_key=mdg[16:])} if a["callkeys"] else {}
                 ci = core.outcome(lambda: [type(p).__name__ for p in h.iter_recover_http(req, **call_kw)])
                 sym = {"md_aes": mdg[:16], "md_hmac": mdg[16:], "derived_aes": want_aes, "derived_hmac": want_hmac, "none": None}
                 exp_after = tuple(sym.get(x, kw["aes_key"] if i == 0 else kw["hmac_key"]) for i, x in enumerate(res["after"]))
